@@ -12,7 +12,9 @@ RULE = ('float cells of masked and plain variables (f4, f8) include nan, +inf, -
         'fill (adversarial), global and variable attributes of kind str / int / float / int array / float array / bool; every case is saved '
         'in one of NETCDF3_CLASSIC, NETCDF3_64BIT_OFFSET, NETCDF4_CLASSIC, NETCDF4 with complevel 0 or 4 and reopened; dimensions, '
         'attributes, dtypes, dimension tuples, masks and bit patterns compared. Non-trivial = a masked cell or an unlimited dimension or a bool attribute.')
-TRUSTED = ['netCDF-C / HDF5 / netCDF4-python store and return a representable image unchanged; cells equal to _FillValue or missing_value come '
+TRUSTED = ['stage 1 (impl_convert: fill choice, value written into masked cells) is compared with the raw stored cells and _FillValue read with '
+           'netCDF4 auto-masking switched off; only stage 2 (nc_load) is the assumed oracle',
+           'netCDF-C / HDF5 / netCDF4-python store and return a representable image unchanged; cells equal to _FillValue or missing_value come '
            'back masked; unlimited dimensions have the written length (this is the modelled oracle, exercised by every case, not verified)',
            'attribute values are compared by value (int64 <-> int32 and float32 <-> float64 representation changes of attributes are not distinguished); '
            'the _FillValue attribute added by netCDF is not counted as an attribute change']
@@ -293,6 +295,19 @@ def impl(case):
         g.close()
         del g, v, a
         gc.collect()
+        # raw file content, netCDF4 auto-masking and scaling switched off: what was really stored
+        import netCDF4
+        ds = netCDF4.Dataset(path)
+        ds.set_auto_maskandscale(False)
+        obs['raw'] = []
+        for k, v in ds.variables.items():
+            code = STR2CODE.get(v.dtype.str.lstrip('<>|='), 0)
+            dtc = [c for c, n in DT.items() if n == code]
+            dtc = dtc[0] if dtc else 'd'
+            d = np.asarray(v[...]).ravel().tolist()
+            fill = _key(v.getncattr('_FillValue'), dtc) if '_FillValue' in v.ncattrs() else None
+            obs['raw'].append([fill, [_key(x, dtc) for x in d]])
+        ds.close()
         return obs
     finally:
         shutil.rmtree(work, ignore_errors=True)
@@ -342,7 +357,8 @@ def coq_term(case, obs):
         ovs = ['(DVar %s %d [%s] None None %s %s)' % (_n(v['name']), v['dt'], '; '.join(_n(d) for d in v['dims']),
                                                      _oattrs(v['attrs']), _ocells(v['cells'])) for v in obs['vars']]
         o = '(Some (NFile %s %s [%s]))' % (_dims(obs['dims']), _oattrs(obs['gattrs']), '; '.join(ovs))
-    return '(Case 0 %s %s)' % (f, o)
+    raw = '[' + '; '.join('(%s, %s)' % (C.copt(fl, C.zc), C.zlist(cells)) for fl, cells in obs.get('raw', [])) + ']'
+    return '(Case 0 %s %s %s)' % (f, o, raw)
 
 
 # ----------------------------------------------------------------------------- independent oracle
@@ -409,7 +425,7 @@ def shrink(case):
 LEVEL_TEXT = ('Theorems (Props/C07.v, all closed under the global context) about the decision logic of the REPAIRED Pseudo2NetCDF.convert '
               '(fix C07-fill-conflict) composed with an ASSUMED netCDF store/load behaviour (part of the model, not verified): C07_save_open_partial '
               '(whole file, any number of dimensions, attributes, variables, cells: on the boolean domain save+open is the identity on dimensions incl. '
-              'unlimited flag, attributes, dtypes, dimension tuples, cells and masks), C07_cells_partial, C07_masked_any_fill (full: masked cells are '
+              'unlimited flag, attributes, dtypes, dimension tuples, cells and masks), C07_cells_partial; about stage 1 alone (impl_convert, compared with the raw stored cells, no assumption): C07_written_cells, C07_dimension_request, C07_masked_any_fill (full: masked cells are '
               'written with the declared _FillValue whatever missing_value / fill_value are), C07_fill_precedence, C07_attrs_kept; refuted: '
               'C07_unlimited_unused_refuted, C07_default_fill_refuted = known findings; an unmasked cell equal to the DECLARED fill value is outside '
               'the domain (in_quant). Tie H: real save + pncopen over four flavours x compression, field by field, bit patterns.')
